@@ -53,4 +53,15 @@ def WellFormed (s : Schema) : Prop :=
   (s.types.map (·.1)).Nodup ∧
   ∀ e ∈ s.types, e.2.isBuiltIn = true → builtinScalars.contains e.1 = true → e.2 = builtinDef
 
+/-- the type lookup of the value check (`value_of_correct_type`, validation/value.rs, since 99806f4):
+    the type map first; a built-in scalar missing from the map falls back to its built-in definition -/
+def lookupForValue (s : Schema) (n : Name) : Option TypeDef :=
+  match s.types.find? (·.1 == n) with
+  | some e => some e.2
+  | none => if builtinScalars.contains n then some builtinDef else none
+
+/-- the lookup before that repair: the type map only -/
+def lookupMapOnly (s : Schema) (n : Name) : Option TypeDef :=
+  (s.types.find? (·.1 == n)).map (·.2)
+
 end Apollo.Scalars
